@@ -44,7 +44,7 @@ func c13Authenticated(br *Browser) (bool, string, int, error) {
 
 func CheckC13(l *Lab, verifDir string) int {
 	rep := NewReport("C13", l.Tier, l.Seed, "exploration", verifDir)
-	rep.Rule = "OpenID login flows against real gateway processes with both session stores (cookie, file): successful callbacks with each user-name claim and many identity contents (then 20 follow-up downloads interleaved with other sessions must keep returning the same user), and scripted failures at every point (unknown state, state of another instance, state older than 125 s [thorough only], token endpoint 400/500/connection reset, missing id_token, bad signature, wrong issuer, wrong audience, expired ID token, alg none, HS256 under the client secret, no user-name claim, non-string claim) after which the jar with all cookies the failing exchange set must not be authenticated; every single-character substitution (sampled alternatives in quick), truncation and extension of an authenticated session cookie and the cookie of an instance with other keys must not yield a connection file unless the mutant decodes to the same bytes. authenticated(jar) := GET /connect returns 200 with a connection file. non-trivial = the callback or download was answered; distinct = store x scenario x outcome"
+	rep.Rule = "OpenID login flows against real gateway processes with both session stores (cookie, file): successful callbacks with each user-name claim and many identity contents (then 20 follow-up downloads interleaved with other sessions must keep returning the same user), and scripted failures at every point (unknown state, state of another instance, state older than 125 s, also after failing / succeeding callbacks used it in between [thorough only], token endpoint 400/500/connection reset, missing id_token, bad signature, wrong issuer, wrong audience, expired ID token, alg none, HS256 under the client secret, no user-name claim, non-string claim) after which the jar with all cookies the failing exchange set must not be authenticated; every single-character substitution (sampled alternatives in quick), truncation and extension of an authenticated session cookie and the cookie of an instance with other keys must not yield a connection file unless the mutant decodes to the same bytes. authenticated(jar) := GET /connect returns 200 with a connection file. non-trivial = the callback or download was answered; distinct = store x scenario x outcome"
 	if l.Quick() {
 		rep.Assume("quick tier skips the 125 s state-expiry probe (run in the thorough tier)")
 	}
@@ -105,6 +105,45 @@ func c13Store(l *Lab, rep *Report, idp *IdP, store string) {
 				rep.Violate("C13/authenticated-by-expired-state/"+store, fmt.Sprintf("callback with a state issued 125 s earlier (status %d) left the session authenticated as %q", cb.Status, user), map[string]any{"connect_status": st})
 			}
 		}()
+		// the same, with callbacks in between that fail (refused code) or succeed (state used up):
+		// neither may give the state a new lease of life
+		for _, mid := range []string{"failing", "succeeding"} {
+			mid := mid
+			expiryWG.Add(1)
+			go func() {
+				defer expiryWG.Done()
+				br := NewBrowser(a.gw, "")
+				state, _, err := br.BeginLogin("")
+				if err != nil || state == "" {
+					rep.Inconclusive("expiry probe: no state")
+					return
+				}
+				for _, at := range []int{50, 100} {
+					time.Sleep(50 * time.Second)
+					_ = at
+					code := "no-such-code"
+					jar := br
+					if mid == "succeeding" {
+						code = idp.NewCode(CodeSpec{User: "mid-user"})
+						jar = NewBrowser(a.gw, "") // another browser completes the login with this state
+					}
+					jar.Do("GET", "/callback?state="+url.QueryEscape(state)+"&code="+url.QueryEscape(code), nil)
+				}
+				time.Sleep(26 * time.Second)
+				br2 := NewBrowser(a.gw, "")
+				code := idp.NewCode(CodeSpec{User: "late-user"})
+				cb, err := br2.Do("GET", "/callback?state="+url.QueryEscape(state)+"&code="+url.QueryEscape(code), nil)
+				if err != nil {
+					rep.Inconclusive("expiry probe: " + err.Error())
+					return
+				}
+				ok, user, st, _ := c13Authenticated(br2)
+				rep.Eval(HashStr(store, "state-expired-after-"+mid, cb.Status, ok))
+				if ok {
+					rep.Violate("C13/authenticated-by-expired-state/after-"+mid+"-callbacks/"+store, fmt.Sprintf("callback with a state issued 126 s earlier, used by %s callbacks 50 s and 100 s after it was issued (status %d), left the session authenticated as %q", mid, cb.Status, user), map[string]any{"connect_status": st})
+				}
+			}()
+		}
 	}
 
 	// ---- failing callbacks
